@@ -278,15 +278,15 @@ def cfgP (tailUnlocked : Bool) : Cfg :=
   { kind := .progress, width := 20, height := 8, record := false, transient := true, stopTailUnlocked := tailUnlocked }
 
 def shP : Shared :=
-  { tasks := [{ id := 0, desc := ['a'], completed := 0, visible := true }],
-    renderable := Live.tasksTable [{ id := 0, desc := ['a'], completed := 0, visible := true }] }
+  { tasks := [{ id := 0, desc := ['a'], completed := 0, total := 9, visible := true }],
+    renderable := Live.tasksTable cw1 [{ id := 0, desc := ['a'], completed := 0, total := 9, visible := true }] }
 
 /-- thread 0 starts and stops a transient Progress, thread 1 calls `start()` -/
 def progsP : List (List Op) := [[.start, .stop], [.start]]
 
-/-- thread 0 runs until `stop()` has released the progress lock (81 steps), thread 1 runs `start()` to completion,
+/-- thread 0 runs until `stop()` has released the progress lock (82 steps), thread 1 runs `start()` to completion,
 thread 0 finishes `stop()` (transient erase, `_shape = None`), thread 1 gets further turns (it has none left to use). -/
-def schedP : List Nat := List.replicate 81 0 ++ List.replicate 80 1 ++ List.replicate 20 0 ++ List.replicate 80 1
+def schedP : List Nat := List.replicate 82 0 ++ List.replicate 80 1 ++ List.replicate 20 0 ++ List.replicate 80 1
 
 set_option maxRecDepth 100000 in
 /-- The code in /repo (`stopTailUnlocked = true`, as in rich 9.10.0 as found; known finding `progress-stop-tail-vs-start`): the restarted display is drawn on the row below the one `stop()` then
@@ -294,7 +294,7 @@ erases, and `stop()`'s late `_shape = None` makes the display forget the frame i
 blank row followed by the frame, with no recorded shape although the display is started. -/
 theorem old_progress_stop_tail_races_start :
     let s := run (cfgP true) (initState shP progsP) schedP
-    (replay 8 Screen.init (fileOps s)).rows = [[], ['a', ' ', '0']] ∧ s.sh.shape = none ∧ s.sh.started = true ∧
+    (replay 8 Screen.init (fileOps s)).rows = [[], ['a', ' ', '0', '/', '9']] ∧ s.sh.shape = none ∧ s.sh.started = true ∧
       ((List.range 2).all fun t => (s.th t).done) = true := by
   decide
 
@@ -303,7 +303,7 @@ set_option maxRecDepth 100000 in
 the old display is gone before the new one is drawn, and the shape of the frame on screen is recorded. -/
 example :
     let s := run (cfgP false) (initState shP progsP) schedP
-    (replay 8 Screen.init (fileOps s)).rows = [['a', ' ', '0'], []] ∧ s.sh.shape = some (3, 1) ∧ s.sh.started = true ∧
+    (replay 8 Screen.init (fileOps s)).rows = [['a', ' ', '0', '/', '9'], []] ∧ s.sh.shape = some (5, 1) ∧ s.sh.started = true ∧
       ((List.range 2).all fun t => (s.th t).done) = true := by
   decide
 
